@@ -33,7 +33,9 @@ RULE = (
 )
 
 LETTERS = ref.LETTERS
-F1, F2, F3, F4 = "C10-F1", "C10-F2", "C10-F3", "C10-F4"
+F1, F2, F3, F4, F5 = "C10-F1", "C10-F2", "C10-F3", "C10-F4", "C10-F5"
+INT64_MAX = (1 << 63) - 1
+INT64_MIN = -(1 << 63)
 
 
 # --------------------------------------------------------------------------
@@ -481,6 +483,27 @@ def run_constructors_equal(case):
             )
             o.check(not (base == other), "different_content_different_tables", "table == table without its last entry")
             o.check(base != other, "different_content_different_tables", "not (table != table without its last entry)")
+        # same number of entries, one position / one reference id changed
+        for what in ("position", "ref_id"):
+            by_ref, order = {}, []
+            last = len(model.entries) - 1
+            for idx, (km, rid, pos) in enumerate(model.entries):
+                if rid not in by_ref:
+                    by_ref[rid] = ([], [])
+                    order.append(rid)
+                by_ref[rid][0].append(pos + 1 if (idx == last and what == "position") else pos)
+                by_ref[rid][1].append(ref.code_of(km, e.n_table))
+            ids2 = list(order)
+            if what == "ref_id":
+                ids2[-1] = (ids2[-1] + 1) % (1 << 32)
+            same = cls.from_kmer_selection(
+                ka,
+                [np.array(by_ref[r][0], dtype=np.uint32) for r in order],
+                [np.array(by_ref[r][1], dtype=np.int64) for r in order],
+                ref_ids=ids2,
+                **kw,
+            )
+            o.check(not (base == same), "different_content_different_tables", f"table == table with one {what} changed")
     ref_sets = {}
     for ridx, r in enumerate(e.long_refs):
         for km in set(ref.kmer_tuples(ref.sym_codes(r["seq"]), e.offs)):
@@ -615,10 +638,34 @@ def _perm_pair(pcase, n, k, spacing_case=None):
         return None, ref.PermModel("none", size)
     if kind == "random":
         return RandomPermutation(), ref.PermModel("random", size)
+    if kind == "table":
+        return _table_permutation(pcase["keys"]), ref.PermModel("table", size, list(pcase["keys"]))
     rng = np.random.default_rng(pcase["seed"])
     counts = rng.integers(0, pcase["cmax"] + 1, size=size)
     ka = KmerAlphabet(_alph(n), k) if spacing_case is None else _kmer_alphabet(n, k, spacing_case)
     return FrequencyPermutation(ka, counts.astype(np.int64)), ref.PermModel("freq", size, ref.frequency_ranks(counts.tolist()))
+
+
+def _table_permutation(keys):
+    """A user-defined Permutation: an arbitrary injective map k-mer code -> int64 sort key."""
+    from biotite.sequence.align import Permutation
+
+    class TablePermutation(Permutation):
+        def __init__(self, keys):
+            self._keys = np.array(keys, dtype=np.int64)
+
+        @property
+        def min(self):
+            return int(self._keys.min())
+
+        @property
+        def max(self):
+            return int(self._keys.max())
+
+        def permute(self, kmers):
+            return self._keys[kmers]
+
+    return TablePermutation(keys)
 
 
 def run_permutation(case):
@@ -705,6 +752,8 @@ def run_minimizer(case):
 
     o = Outcome()
     _apply_break_label(o)
+    for fid in case.get("narrowed", []):
+        o.exclude(fid)
     n, k, window = case["n"], case["k"], case["window"]
     offs = ref.offsets(k, case["spacing"])
     true_span = (k if case["spacing"] is None else max(case["spacing"]) + 1)
@@ -768,6 +817,8 @@ def run_syncmer(case):
 
     o = Outcome()
     _apply_break_label(o)
+    for fid in case.get("narrowed", []):
+        o.exclude(fid)
     n, k, s = case["n"], case["k"], case["s"]
     offset = case["offset"]
     perm, pm = _perm_pair(case["perm"], n, s)
@@ -1063,7 +1114,7 @@ def st_table_case(tier, allow_rule=True, modes=None):
             return q
 
         q = query()
-        if n_table < 26 and _one_in(draw, 40):
+        if n_table < 26 and _one_in(draw, 25):
             q["n"] = n_table + 1
         q2 = query() if _one_in(draw, 3) else None
         kind = draw(st.sampled_from(["direct", "bucket"]))
@@ -1225,12 +1276,36 @@ def st_similar(tier):
     return gen()
 
 
-def st_perm(n, k, allow_none=True):
+def st_perm(n, k, allow_none=True, allow_table=True):
+    """({"type": none | random | freq | table, ...}, narrowed finding ids).  `table` is an arbitrary
+    user-defined permutation (explicit injective list of int64 sort keys, incl. the extremes of the
+    type), only for small k-mer alphabets."""
     size = n**k
-    opts = [st.just({"type": "random"}), st.fixed_dictionaries({"type": st.just("freq"), "seed": st.integers(0, 1 << 30), "cmax": st.sampled_from([0, 1, 2, 5, 1000])})]
-    if allow_none:
-        opts.insert(0, st.just({"type": "none"}))
-    return st.one_of(opts)
+
+    @st.composite
+    def gen(draw):
+        kinds = ["random", "freq"] + (["none"] if allow_none else []) + (["table", "table"] if allow_table and size <= 81 else [])
+        kind = draw(st.sampled_from(kinds))
+        if kind in ("none", "random"):
+            return {"type": kind}, []
+        if kind == "freq":
+            return {"type": "freq", "seed": draw(st.integers(0, 1 << 30)), "cmax": draw(st.sampled_from([0, 1, 2, 5, 1000]))}, []
+        key = st.one_of(
+            st.integers(-4, size + 4),
+            st.sampled_from([INT64_MIN, INT64_MIN + 1, INT64_MAX - 1, INT64_MAX]),
+            st.integers(INT64_MIN, INT64_MAX),
+        )
+        keys = draw(st.lists(key, min_size=size, max_size=size, unique=True))
+        narrowed = []
+        if INT64_MAX in keys and findings.is_open(F5):
+            repl = INT64_MAX - 2
+            while repl in keys:
+                repl -= 1
+            keys[keys.index(INT64_MAX)] = repl
+            narrowed.append(F5)
+        return {"type": "table", "keys": keys}, narrowed
+
+    return gen()
 
 
 def st_permutation_case(tier):
@@ -1238,7 +1313,7 @@ def st_permutation_case(tier):
     def gen(draw):
         n = draw(st.integers(2, 6))
         k = draw(st.integers(2, 4))
-        perm = draw(st_perm(n, k, allow_none=False))
+        perm, _ = draw(st_perm(n, k, allow_none=False, allow_table=False))
         big = draw(st.booleans()) and perm["type"] == "random"
         codes = draw(st.lists(st.integers(0, (1 << 62) if big else n**k - 1), min_size=1, max_size=20))
         if perm["type"] == "random" and big:
@@ -1277,13 +1352,15 @@ def st_minimizer(tier):
         else:
             text = draw(st_text(min(n, draw(st.sampled_from([2, 6, 6]))), span + window, maxlen))
         free_len = draw(st.sampled_from([0, window, window + 1, 2 * window, 3 * window - 1, 25]))
+        perm, narrowed = draw(st_perm(n, k))
         return {
             "n": n,
             "k": k,
             "spacing": spacing,
             "spacing_form": form,
             "window": window,
-            "perm": draw(st_perm(n, k)),
+            "perm": perm,
+            "narrowed": narrowed,
             "seq": text,
             "free_kmers": draw(st.lists(st.integers(0, n**k - 1), min_size=free_len, max_size=free_len)),
             "wrong_alphabet": _one_in(draw, 10),
@@ -1304,14 +1381,16 @@ def st_syncmer(tier):
         n_smers = k - s + 1
         norm = draw(st.lists(st.integers(0, n_smers - 1), min_size=1, max_size=min(3, n_smers), unique=True))
         offset = [o - n_smers if draw(st.booleans()) else o for o in norm]
-        text = draw(st.sampled_from([0, 1, 1, 1, 2, 2])).real
+        perm, narrowed = draw(st_perm(n, s))
+        text = draw(st.sampled_from([0, 1, 1, 1, 2, 2]))
         text = draw([st_text(n, k - 1, k + 1), st_text(n, k, maxlen), st_text(min(n, 2), k, maxlen)][text])
         return {
             "n": n,
             "k": k,
             "s": s,
             "offset": offset,
-            "perm": draw(st_perm(n, s)),
+            "perm": perm,
+            "narrowed": narrowed,
             "seq": text,
             "cached": n**k <= 1300,
             "free_kmers": draw(st.lists(st.integers(0, n**k - 1), max_size=12)),
@@ -1340,7 +1419,8 @@ def st_mincode(tier):
                 st.integers(1, size),
             )
         )
-        narrowed = []
+        perm, narrowed = draw(st_perm(n, k))
+        narrowed = [x for x in narrowed if x != F5]  # the mincode selector does not use the windowed minimum
         check_index_array = True
         if findings.is_open(F3):
             check_index_array = False
@@ -1351,7 +1431,7 @@ def st_mincode(tier):
             "spacing": spacing,
             "spacing_form": form,
             "compression": compression,
-            "perm": draw(st_perm(n, k)),
+            "perm": perm,
             "seq": draw(st_text(n, max(1, span - 1), span + 1) if _one_in(draw, 6) else st_text(n, span, maxlen)),
             "free_kmers": draw(st.lists(st.integers(0, size - 1), max_size=20)),
             "wrong_alphabet": _one_in(draw, 10),
@@ -1401,7 +1481,7 @@ SUBS = [
         "constructors_equal",
         st_constructors,
         run_constructors_equal,
-        quick=2400,
+        quick=1600,
         thorough=90000,
         rule=">= 2 usable references sharing a k-mer (bucketed: and a collision)",
         clauses="from_sequences, from_kmers, from_kmer_selection, from_positions, from_tables and a pickle round trip of equal "
@@ -1411,7 +1491,7 @@ SUBS = [
         "bucket_big",
         st_bucket_big,
         run_bucket_big,
-        quick=1600,
+        quick=1200,
         thorough=60000,
         rule="table holds a k-mer code >= 2^32, >= 1 match, >= 1 bucket collision",
         clauses="BucketKmerTable over k-mer alphabets beyond 32 bit: match, match_table, match_kmer_selection, count, get_kmers, table[kmer], pickling",
@@ -1420,7 +1500,7 @@ SUBS = [
         "similar_kmers",
         st_similar,
         run_similar_kmers,
-        quick=2400,
+        quick=1600,
         thorough=90000,
         rule="between 2 and all-but-one k-mers are similar",
         clauses="ScoreThresholdRule.similar_kmers = all k-mers with summed score >= threshold, no duplicates",
@@ -1429,7 +1509,7 @@ SUBS = [
         "permutation",
         st_permutation_case,
         run_permutation,
-        quick=1200,
+        quick=800,
         thorough=40000,
         rule=">= 2 distinct codes (frequency permutation: counts not all equal)",
         clauses="RandomPermutation = LCG; FrequencyPermutation orders by count, ties by code; values in [min, max], unambiguous",
@@ -1438,7 +1518,7 @@ SUBS = [
         "minimizer",
         st_minimizer,
         run_minimizer,
-        quick=4000,
+        quick=3200,
         thorough=150000,
         rule=">= 2 windows and (a tie inside a window or a selection that is neither one k-mer nor all)",
         clauses="MinimizerSelector.select / select_from_kmers return the leftmost minimum of every window, each once",
@@ -1447,7 +1527,7 @@ SUBS = [
         "syncmer",
         st_syncmer,
         run_syncmer,
-        quick=3200,
+        quick=2400,
         thorough=120000,
         rule=">= 2 k-mers and (a tie among the s-mers or a selection that is neither empty nor all)",
         clauses="SyncmerSelector / CachedSyncmerSelector select exactly the k-mers whose leftmost minimum s-mer is at an allowed offset",
@@ -1456,7 +1536,7 @@ SUBS = [
         "mincode",
         st_mincode,
         run_mincode,
-        quick=3200,
+        quick=2400,
         thorough=120000,
         rule="selection neither empty nor all",
         clauses="MincodeSelector: threshold = min + range / compression; selects exactly the k-mers with (permuted) code below it",
@@ -1465,7 +1545,7 @@ SUBS = [
         "bucket_number",
         st_bucket_number,
         run_bucket_number,
-        quick=800,
+        quick=480,
         thorough=20000,
         rule="requested number > 3",
         clauses="bucket_number returns the closest listed prime >= n_kmers / load_factor; default n_buckets of a table uses it",
@@ -1522,7 +1602,17 @@ def bucket_getitem_truncates_code(sub, case, clause, message):
     return sub == "bucket_big" and clause == "getitem" and case["n"] ** case["k"] > (1 << 32)
 
 
+def minimum_at_int64_max_sort_key(sub, case, clause, message):
+    return (
+        sub in ("minimizer", "syncmer")
+        and clause in ("minimizer", "syncmer")
+        and case.get("perm", {}).get("type") == "table"
+        and INT64_MAX in case["perm"]["keys"]
+    )
+
+
 FINDINGS = {
+    "minimum_at_int64_max_sort_key": minimum_at_int64_max_sort_key,
     "spaced_kmers_with_ignore_mask": spaced_kmers_with_ignore_mask,
     "identical_kmer_below_similarity_threshold": identical_kmer_below_similarity_threshold,
     "mincode_returns_boolean_mask": mincode_returns_boolean_mask,
